@@ -148,7 +148,8 @@ func checkC16(tier string) int {
 	}
 	vx.JobTimeout = time.Duration(dSecs+240) * time.Second
 	for _, os := range [][]string{{"mk:a", "rm:a"}, {"mk:a", "rm:a", "mk:a"}, {"mk:a", "mkch:a:x", "rmch:a:x"}, {"mk:a", "mkch:a:x", "rmch:a:x", "mkch:a:x"}, {"mk:a", "mk:b"}, {"mk:a", "mkch:a:x", "rm:a"},
-		{"mk:a", "mkch:a:x", "rm:a", "mk:a"}, {"mk:a", "mkch:a:x", "rm:a", "mkch:a:x"}, {"mkeph", "mk:a", "rm:a"}} {
+		{"mk:a", "mkch:a:x", "rm:a", "mk:a"}, {"mk:a", "mkch:a:x", "rm:a", "mkch:a:x"}, {"mkeph", "mk:a", "rm:a"},
+		{"mk:a", "mkephon:a", "rm:a", "mk:a"}, {"mk:a", "mkephon:a", "mkch:a:x", "rm:a", "mk:a"}} {
 		for _, lk := range []int{1, 2} {
 			if lk == 2 && len(os) > 3 {
 				continue
